@@ -1061,6 +1061,27 @@ def main(a0: fp.Real, a1: fp.Real) -> fp.Real:
             k = k - 1
     return r
 ''', [('main', [('a0', 'X'), ('a1', 'X')], {}, {})]),
+    # formats with a NaN and no infinity turn an overflowing finite result into NaN: NaN-free operands
+    # (literals, guard-refined variables) do not make the rounded result NaN-free
+    ('class-overflow-to-nan', '''
+@fp.fpy
+def main(a0: fp.Real, a1: fp.Real) -> fp.Real:
+    r = 0
+    with {octx}:
+        v = 448 * 2
+        w = fp.round(1000)
+        u = 300 + 300
+        n = -(400 + 400)
+        if fp.isfinite(a0):
+            t = a0 * 2
+            s = a0 + a0
+            q = fp.round(a0)
+            r = 1
+        if not fp.isnan(a1) and not fp.isinf(a1):
+            p = a1 - 600
+            r = r + 2
+    return r
+''', [('main', [('a0', 'X'), ('a1', 'X')], {}, {})]),
     ('class-branch-join', '''
 @fp.fpy(ctx=fp.REAL)
 def main(a0: fp.Real, a1: fp.Real) -> fp.Real:
@@ -1352,6 +1373,7 @@ def main(a0: fp.Real) -> fp.Real:
 ]
 
 FILL = {
+    'octx': ['fp.MX_E4M3', 'fp.S1E4M3', 'fp.EFloatContext(3, 6, False, fp.EFloatNanKind.MAX_VAL, 0)'],
     'lit0': ['0', '1', '0.5', '-0.0', 'fp.inf()', '2'],
     'lit1': ['0', '1', '3', '-1', '0.25'],
     'op0': ['*', '+', '-', '/'],
